@@ -231,7 +231,9 @@ func c15OpsExt(poolOrder bool) []c15op {
 			return ""
 		}}
 	}
-	ops = append(ops, replenish(false, []string{"A", "B"}, 1), replenish(false, []string{"A"}, 2), replenish(true, []string{"P"}, 1), replenish(true, []string{"P", "Q"}, 2))
+	ops = append(ops, replenish(false, []string{"A", "B"}, 1), replenish(false, []string{"A"}, 2), replenish(true, []string{"P"}, 1), replenish(true, []string{"P", "Q"}, 2),
+		// the same account / pool listed twice in one request
+		replenish(false, []string{"A", "A"}, 2), replenish(true, []string{"P", "P"}, 1))
 	attach := func(a, p, signer string, expired bool) c15op {
 		return c15op{fmt.Sprintf("attach(%s<-%s,signedBy=%s,expired=%v)", a, p, signer, expired), func(c *c15World) string {
 			at := proto4.PoolAttachment{Account: acc(c.keys[a]), Pool: acc(c.keys[p]), ValidUntil: time.Now().Add(time.Hour)}
@@ -396,6 +398,24 @@ func c15PoolOrder() int {
 				return
 			}
 			for _, o := range free {
+				rec(append(seq, o))
+			}
+		}
+		rec(prefix)
+	}
+	// second family: one pool holding exactly one small read, attached once; then every sequence over
+	// {attach it again, detach it, read 64, read 128}: an attachment that is repeated must not count twice
+	// (a 128-byte read costs more than the pool holds, less than twice that)
+	{
+		prefix := []c15op{get("replenishPools([P],1R)"), att["P"]}
+		free2 := []c15op{att["P"], get("detach(A,P,signedBy=A)"), get("read(A,0,64)"), get("read(A,0,128)")}
+		var rec func(seq []c15op)
+		rec = func(seq []c15op) {
+			if len(seq) == len(prefix)+n {
+				seqs = append(seqs, append([]c15op(nil), seq...))
+				return
+			}
+			for _, o := range free2 {
 				rec(append(seq, o))
 			}
 		}
